@@ -230,6 +230,10 @@ int main() {''')
     return "\n".join(o) + "\n", idx
 
 
+import threading
+_serial_compile = threading.Lock()
+
+
 @dataclass
 class ImplResult:
     traces: Dict[str, Trace]
@@ -263,6 +267,13 @@ def run_impl(cases: List[Case], san: str = 'asan', per_tu: int = 8, jobs: int = 
         sp.write_text(src)
         t0 = time.time()
         cp = subprocess.run([CXX] + cxx_flags(san) + [str(sp), '-o', str(ex)], capture_output=True, text=True)
+        for _retry in range(3):
+            # a compiler killed by the machine (memory pressure next to other jobs) is not a property of the code: try again, alone
+            if cp.returncode == 0 or not (cp.returncode < 0 or any(k in cp.stderr for k in ('Killed', 'virtual memory exhausted', 'Cannot allocate memory', 'out of memory', 'fatal error: error writing'))):
+                break
+            time.sleep(5 + 10 * _retry)
+            with _serial_compile:
+                cp = subprocess.run([CXX] + cxx_flags(san) + [str(sp), '-o', str(ex)], capture_output=True, text=True)
         ct = time.time() - t0
         if cp.returncode != 0:
             return ('cerr', [(None, f"tu{bi}: " + cp.stderr[:4000])], ct, 0.0, '')
